@@ -1,7 +1,8 @@
 (* C06 — cache lookups return exactly the bytes inserted under that key, or nothing.
    Content theorems hold for histories in which no zero-length value has been stored
    (known finding F2, refuted below for the general case).  Proofs: Proofs/CacheRing.v, CacheFifo.v. *)
-From BS Require Import Spec.CacheSpec Proofs.CacheWF Proofs.CacheFifo Proofs.CacheRing.
+From BS Require Import Impl.Access Spec.Wire Spec.CacheSpec Proofs.ImplRefTx Proofs.TxSpec Proofs.CacheWF Proofs.CacheFifo Proofs.CacheRing
+  Proofs.CacheValue.
 Open Scope N_scope.
 
 (* a lookup returns nothing or exactly the bytes of the latest successful insertion under that key *)
@@ -29,6 +30,34 @@ Proof. exact C06_disjoint. Qed.
 (* lookups never panic on a reachable state *)
 Theorem C06_get_total : forall c hist k, reachable c hist -> get c k <> CPanic.
 Proof. intros c hist k H. apply get_no_panic. exact (reachable_WF c hist H). Qed.
+
+(* the typed lookup get_value::<Transaction> (redb feature) decodes exactly the stored bytes: it is absent, or
+   [from_bytes] of the bytes most recently stored under that key ... *)
+Theorem C06_get_value_is_from_bytes_of_latest :
+  forall capacity ops c hist, run capacity ops = Some (c, hist) -> NoEmptyStored hist -> forall k,
+  (get c k = COk None /\ get_value tx_from_stored c k = COk None) \/
+  (exists v, get c k = COk (Some v) /\ latest hist k = Some v /\ get_value tx_from_stored c k = COk (Some (tx_from_stored v))).
+Proof. exact get_value_tx_cases. Qed.
+
+(* ... which, when those bytes begin with a well-formed transaction encoding, is that transaction
+   (slice, preimage split and weight as Proofs/TxSpec.v states them for [obj_tx]); other bytes make
+   [from_bytes] panic (Transaction::from_bytes unwraps the parse result), and conversely *)
+Theorem C06_get_value_transaction :
+  forall capacity ops c hist, run capacity ops = Some (c, hist) -> NoEmptyStored hist ->
+  forall k t rest, wf_tx t -> InLen (enc_tx t ++ rest) ->
+  get c k = COk (Some (enc_tx t ++ rest)) ->
+  latest hist k = Some (enc_tx t ++ rest) /\ get_value tx_from_stored c k = COk (Some (Ok (obj_tx 0 t))).
+Proof. exact get_value_tx_latest. Qed.
+
+Theorem C06_from_bytes_ok_only_on_encodings :
+  forall v x, InLen v -> tx_from_stored v = Ok x -> exists t rest, wf_tx t /\ v = enc_tx t ++ rest /\ x = obj_tx 0 t.
+Proof. exact tx_from_stored_ok. Qed.
+
+Theorem C06_get_value_fresh :
+  forall capacity ops c0 hist0 k t, run capacity ops = Some (c0, hist0) -> wf_tx t -> InLen (enc_tx t) ->
+  forall n c, insert c0 k (enc_tx t) = (COk n, c) ->
+  get_value tx_from_stored c k = COk (Some (Ok (obj_tx 0 t))).
+Proof. exact get_value_tx_fresh. Qed.
 
 (* KNOWN FINDING F2: without the hypothesis the statement is false (capacity 4, sizes 4,0,2,2,1) *)
 Theorem C06_empty_value_refuted :
